@@ -33,6 +33,22 @@ theorem getitem_fresh (m : Mem β) (np : Nat) (ops : List (Op β)) (it : Item) (
   obtain ⟨rows, _, rfl, rfl⟩ := getitem_eq_some m np ops it m' a hg
   simp
 
+/-- the block and its address, for a reader that exists (`r < h.length`) over a storage whose parts exist
+(`np ≤ m.arrays.length`): the address is outside the storage and the storage is as it was -/
+theorem getitem_block_fresh (h : Heap β) (m : Mem β) (np : Nat) (hnp : np ≤ m.arrays.length) (r : Nat)
+    (hr : r < h.length) (it : Item) :
+    (getitem m np h[r] it).map (fun p => p.1.block p.2) = eval h (m.parts np) r it ∧
+    (m.parts np).length = np ∧
+    ∀ m' a, getitem m np h[r] it = some (m', a) →
+      a = m.arrays.length ∧ np ≤ a ∧ m'.arrays.length = a + 1 ∧
+      m'.arrays.take m.arrays.length = m.arrays ∧ m'.parts np = m.parts np := by
+  have hget : h.getD r [] = h[r] := by simp [List.getD_eq_getElem?_getD, hr]
+  refine ⟨hget ▸ getitem_block h m np r it, by simp [Mem.parts, hnp], fun m' a hg => ?_⟩
+  obtain ⟨rows, _, rfl, rfl⟩ := getitem_eq_some m np _ it m' a hg
+  refine ⟨rfl, hnp, by simp, by simp, ?_⟩
+  simp only [Mem.parts]
+  rw [List.take_append_of_le_length hnp]
+
 /-- writing into the block handed out leaves the storage as it was -/
 theorem scribble_parts (m : Mem β) (np : Nat) (hnp : np ≤ m.arrays.length) (ops : List (Op β)) (it : Item)
     (m' : Mem β) (a : Nat) (hg : getitem m np ops it = some (m', a)) (f : List (List β) → List (List β)) :
